@@ -193,8 +193,19 @@ def programs(run, n):
     pg = g.ProgGen(run.rng.fork("progs"), p_err=0.02, p_bomb=0.2)
     fam = sharing_family()
     progs = fam + [pg.program() for _ in range(n)]
-    flags = [True] * len(fam) + [False] * n
-    for k, v in pg.stats.items():
+    # programs dense in calls of native std builtins with Jsonnet callbacks: how often each argument,
+    # each element and each callback body runs must equal the count under the reference definition
+    # applied to strict arguments (vlib/stdref.py), which Sem evaluates
+    pgs = g.ProgGen(run.rng.fork("stdprogs"), p_err=0.02, p_bomb=0.2, stdlib=0.4)
+    want, tries = max(n // 6, 40), 0
+    while want > 0 and tries < 20 * n:
+        tries += 1
+        q = pgs.program()
+        if "std." in g.to_js(q):
+            progs.append(q)
+            want -= 1
+    flags = [True] * len(fam) + [False] * (len(progs) - len(fam))
+    for k, v in list(pg.stats.items()) + [(k, v) for k, v in pgs.stats.items() if k.startswith("std:")]:
         run.count("gen:" + k, v)
     return progs, flags
 
